@@ -88,6 +88,14 @@ def spacing(n, salt):
     return out
 
 
+def comb_spacing(n, salt, long_step, unit, start=0):
+    """line coordinates from `start` with steps 1, 2, 8 times `unit` and, when long_step > 0, ONE long step"""
+    out, at = [start], salt % n
+    for k in range(n):
+        out.append(out[-1] + (long_step if long_step and k == at else unit * (1, 2, 8)[(salt + k) % 3]))
+    return out
+
+
 def cropped(grid):
     """the drawing without its empty border rows / columns (None for an empty drawing)"""
     rows = [r for r in range(len(grid)) if any(grid[r])]
@@ -202,6 +210,26 @@ def poly_case(grid, salt, embs=ALL, origin="tlc", both=True):
     nr, nc = len(grid), len(grid[0])
     return {"kind": "poly", "grid": grid, "xs": spacing(nc, salt), "yl": spacing(nr, salt // 3 + 1 if salt % 2 else 0),
             "loop": loop, "salt": salt, "embs": list(embs), "origin": origin, "both_containers": both}
+
+
+def comb_case(grid, salt, origin="tlc"):
+    """The same drawing as a comb / bar under the decimal embedding (step 0.1).  One axis has its lines at 16.0 plus
+    0.1 / 0.2 / 0.8 steps (inexact: neighbouring rectangles may overlap by one unit in the last place, 3.6e-15 there);
+    the other axis has exactly representable lines 1.0 / 2.0 / 8.0 apart with ONE step of 128.0 or 256.0.  The
+    rectangles then share sides thousands of times longer than the smallest side (0.1), so that a one-ulp overlap has
+    an area above the DISTANCE tolerance (1e-13) and far below the area tolerance -- while every coordinate stays
+    small enough for the distance tolerance not to be absorbed by rounding (it is at coordinates above ~1e3, see the
+    report: find_location's strict extent test then rejects flush corners)."""
+    pc = poly_case(grid, salt, embs=["dec"], origin=origin + "-comb", both=False)
+    if pc is None:
+        return None
+    nr, nc = len(grid), len(grid[0])
+    long_step = 1280 if salt % 4 < 2 else 2560
+    if salt % 2 == 0:
+        pc["xs"], pc["yl"] = comb_spacing(nc, salt // 2, long_step, 10), comb_spacing(nr, salt // 2 + 1, 0, 1, 160)
+    else:
+        pc["xs"], pc["yl"] = comb_spacing(nc, salt // 2 + 1, 0, 1, 160), comb_spacing(nr, salt // 2, long_step, 10)
+    return pc
 
 
 def random_grids(rng: random.Random, n: int) -> list:
@@ -343,6 +371,8 @@ def build_cases(grids, origin, poly_cells, seed, crop=False, both=True):
             if pc is not None:
                 cases.append(pc)
                 k += 1
+                if gi % 2 == 0:          # every second drawing also as a comb
+                    cases.append(comb_case(g, salt=gi + seed, origin=origin))
     return cases, k
 
 
@@ -378,7 +408,8 @@ def run(ctx: Ctx) -> int:
         "grids are enumerated exhaustively up to the cfg bound (quick: <= 12 cells with sides <= 4; thorough: <= 16 cells with sides <= 5), randomly up to 8x8",
         "vertex lists: the outline of every enumerated grid of at most 12 cells that is one simple polygon and fills its bounding box, "
         "both orientations, two start vertices, Point list and numpy rows (quick: alternating, thorough: both for every outline), "
-        "uniform or 1..3-step line spacing, 8 float embeddings",
+        "uniform or 1..3-step line spacing, 8 float embeddings; every second drawing also as a comb under the decimal embedding (one axis in 0.1 / 0.2 / "
+        "0.8 steps from 16.0, the other in exactly representable 1 / 2 / 8 steps with one step of 128 or 256)",
         "for grids of more than 12 cells the oracle of 'a decomposition exists' is the shadow characterisation, proved equal to the declarative definition by TLC on all grids of at most 12 cells",
         "a refusal of strop_decomposition (its assertion 'Polygon is not a STROP') is read as 'no decomposition reported'",
         "'recognised with the trunk first' is read as: Module.has_stog, the first rectangle carries TRUNK and every other rectangle abuts it (any valid trunk)",
